@@ -134,6 +134,13 @@ func bounded(what string, f func() []fasta.Fasta) ([]fasta.Fasta, error) {
 func checkRoundtrip(c Case) error {
 	want := records(c)
 	text := fasta.Build(want)
+	// the text handed back must stay what it is when other records are written before it is read
+	snapshot := string(text)
+	_ = fasta.Build([]fasta.Fasta{{Name: "another record", Sequence: strings.Repeat("tgca", len(snapshot)/16)}})
+	_ = fasta.Build([]fasta.Fasta{{Name: "x", Sequence: "a"}})
+	if string(text) != snapshot {
+		return vk.Errf("the bytes returned by Build(x) changed when other records were built afterwards: %q, was %q", string(text), snapshot)
+	}
 	got, err := bounded("Parse(Build(x))", func() []fasta.Fasta { return fasta.Parse(bytes.NewReader(text)) })
 	if err != nil {
 		return err
